@@ -545,6 +545,10 @@ class PixelAperture(Aperture):
             if error is not None:
                 error = error.value
 
+        # the errors are squared below; integer dtypes would overflow
+        if error is not None and error.dtype.kind in 'iu':
+            error = error.astype(float)
+
         apermasks = self.to_mask(method=method, subpixels=subpixels)
         if self.isscalar:
             apermasks = (apermasks,)
